@@ -567,6 +567,87 @@ func runC17(c *eng.Ctx) {
 		}
 	})
 
+	// ---- custom wire forms: encoder and decoder of one type are inverse by construction, and no number is narrowed on the way ---------
+	c.Rule("SYMMETRY", "sql/stmt{MarshalJSON / UnmarshalJSON pairs: same codec, no narrowing}", func() {
+		pk := p.Package("sql/stmt")
+		if pk == nil {
+			c.Undecided("package sql/stmt not loaded")
+		}
+		isEnc := func(cl *ssa.Call) bool {
+			for _, k := range p.CalleeKeys(cl) {
+				if strings.HasSuffix(k, "encoding.JSONMarshal") || k == "encoding/json.Marshal" || strings.HasSuffix(k, "Marshal") && strings.Contains(k, "json") {
+					return true
+				}
+			}
+			return false
+		}
+		isDec := func(cl *ssa.Call) bool {
+			for _, k := range p.CalleeKeys(cl) {
+				if strings.HasSuffix(k, "encoding.JSONUnmarshal") || k == "encoding/json.Unmarshal" || strings.HasSuffix(k, "Unmarshal") && strings.Contains(k, "json") {
+					return true
+				}
+			}
+			return false
+		}
+		has := func(f *ssa.Function, pred func(*ssa.Call) bool) bool {
+			for _, b := range eng.BlocksT(f) {
+				for _, in := range b.Instrs {
+					if cl, ok := in.(*ssa.Call); ok && pred(cl) {
+						return true
+					}
+				}
+			}
+			return false
+		}
+		nPairs := 0
+		scope := pk.Types.Scope()
+		names := scope.Names()
+		sort.Strings(names)
+		for _, name := range names {
+			tn, ok := scope.Lookup(name).(*types.TypeName)
+			if !ok {
+				continue
+			}
+			mj := p.Func("sql/stmt." + name + ".MarshalJSON")
+			uj := p.Func("sql/stmt." + name + ".UnmarshalJSON")
+			if mj == nil && uj == nil {
+				continue
+			}
+			_ = tn
+			if mj == nil || uj == nil {
+				c.Check(false, "pair-complete:"+name, nil, nil, "a type with a custom wire form has both MarshalJSON and UnmarshalJSON", fmt.Sprintf("MarshalJSON: %v, UnmarshalJSON: %v", mj != nil, uj != nil))
+				continue
+			}
+			nPairs++
+			if has(mj, isEnc) {
+				c.Check(has(uj, isDec), "decoder-matches-encoder:"+name, nil, uj,
+					"a value written with the JSON encoder (which escapes <, >, & and quotes) is read back with the JSON decoder, not by comparing raw bytes with a hand-made literal",
+					"MarshalJSON uses the JSON encoder, UnmarshalJSON never calls the JSON decoder")
+			}
+			for _, g := range []*ssa.Function{mj, uj} {
+				for _, b := range eng.BlocksT(g) {
+					for _, in := range b.Instrs {
+						cv, ok := in.(*ssa.Convert)
+						if !ok {
+							continue
+						}
+						from, okF := cv.X.Type().Underlying().(*types.Basic)
+						to, okT := cv.Type().Underlying().(*types.Basic)
+						if !okF || !okT || from.Info()&types.IsInteger == 0 || to.Info()&types.IsInteger == 0 {
+							continue
+						}
+						sz := func(b *types.Basic) int64 { return p.Pkgs[0].TypesSizes.Sizeof(b) }
+						narrow := sz(to) < sz(from) || sz(to) == sz(from) && (from.Info()&types.IsUnsigned != to.Info()&types.IsUnsigned)
+						c.Check(!narrow, fmt.Sprintf("no-narrowing:%s.%s:%s->%s", name, baseName(g.Name()), from.Name(), to.Name()), cv, g,
+							"a number travels in a wire field at least as wide as the statement's own field (a planner-computed value that does not fit wraps silently on the way to the leaf)",
+							fmt.Sprintf("%s converted to %s", from.Name(), to.Name()))
+					}
+				}
+			}
+		}
+		c.Check(nPairs >= 2, "pairs-found", nil, nil, "the statements' custom wire forms were examined", fmt.Sprintf("%d pairs", nPairs))
+	})
+
 	// ---- the pooled lexer / parser belong to one Parse call until it is done with them ------------------------------------------------
 	c.Rule("TYPESTATE", "sql.Parse{pooled lexer and parser released after the parse}", func() {
 		f := c.Fn("sql.Parse")
